@@ -42,14 +42,13 @@ theorem decode_no_panic (lookup : List Nat → Option Nat) (hl : LookupOk lookup
 -- non-vacuity: a body with every kind of escape, text and bytes
 example : decode (fun n => if n = [65] then some 8226 else none) .str
     [97, 92, 110, 92, 120, 52, 49, 92, 117, 100, 56, 48, 48, 92, 78, 123, 65, 125, 92, 55, 55, 55, 92, 113, 92, 10] 1
-    = .ok (.str [97, 10, 65, 0xFFFD, 8226, 511, 92, 113] false) := by decide
+    = .ok (.str [97, 10, 65, 0xFFFD, 8226, 511, 92, 113] false) := by rfl
 example : Spec.decode (fun n => if n = [65] then some 8226 else none) false false
     [97, 92, 110, 92, 120, 52, 49, 92, 117, 100, 56, 48, 48, 92, 78, 123, 65, 125, 92, 55, 55, 55, 92, 113, 92, 10]
     = some [97, 10, 65, 0xD800, 8226, 511, 92, 113] := by decide
 example : decode (fun _ => none) .bytes [92, 55, 55, 55, 92, 117, 92, 120, 102, 70] 2
-    = .ok (.bytes [255, 92, 117, 255]) := by decide
-example : ∃ e, decode (fun _ => none) .str [92, 120, 52] 1 = .error e ∧ e.kind = .unicodeError :=
-  ⟨_, by decide, rfl⟩
+    = .ok (.bytes [255, 92, 117, 255]) := by rfl
+example : decode (fun _ => none) .str [92, 120, 52] 1 = .error ⟨.unicodeError, 3⟩ := by rfl
 
 /-! ### behaviourally extracted tables (regenerated from the real parser on every run) -/
 
@@ -122,9 +121,9 @@ theorem concat_spec (lookup : List Nat → Option Nat) (hl : LookupOk lookup) (t
 
 example : parseStrings (fun _ => none)
     [⟨0, [97], .unicode, false, 4⟩, ⟨5, [92, 110], .rawStr, false, 10⟩, ⟨11, [92, 110], .str, true, 19⟩]
-    = some (.ok (.str [97, 92, 110, 10] true)) := by decide
-example : ∃ e, parseStrings (fun _ => none) [⟨0, [97], .str, false, 3⟩, ⟨4, [98], .bytes, false, 8⟩]
-    = some (.error e) := ⟨_, by decide⟩
+    = some (.ok (.str [97, 92, 110, 10] true)) := by rfl
+example : parseStrings (fun _ => none) [⟨0, [97], .str, false, 3⟩, ⟨4, [98], .bytes, false, 8⟩]
+    = some (.error ⟨.otherError, 0⟩) := by rfl
 
 /-! ### numbers -/
 
@@ -135,8 +134,8 @@ theorem int_value (text : List Nat) (loc v : Nat)
     (h : lexNumber text loc = .ok (.int v, [])) : v = Spec.intValue text :=
   int_value' text loc v h
 
-example : lexNumber [48, 88, 95, 102, 70, 95, 49] 0 = .ok (.int 4081, []) := by decide
-example : lexNumber [49, 95, 48, 48, 48] 7 = .ok (.int 1000, []) := by decide
+example : lexNumber [48, 88, 95, 102, 70, 95, 49] 0 = .ok (.int 4081, []) := by rfl
+example : lexNumber [49, 95, 48, 48, 48] 7 = .ok (.int 1000, []) := by rfl
 
 /-- Float and imaginary literals: the text handed to `f64::from_str` is the numeral with the
     underscores removed and the exponent marker in lower case (for an imaginary literal: the
@@ -159,7 +158,7 @@ theorem float_scan_partial (text : List Nat) (loc : Nat) (t : List Nat) :
     · cases hv; exact ⟨pre, j, hj, hp, ht⟩
 
 example : lexNormalNumber [49, 95, 48, 46, 53, 69, 43, 48, 95, 49] 0
-    = .ok (.float [49, 48, 46, 53, 101, 43, 48, 49], []) := by decide
-example : lexNormalNumber [49, 101, 53, 74] 0 = .ok (.complex [49, 101, 53], []) := by decide
+    = .ok (.float [49, 48, 46, 53, 101, 43, 48, 49], []) := by rfl
+example : lexNormalNumber [49, 101, 53, 74] 0 = .ok (.complex [49, 101, 53], []) := by rfl
 
 end PV.C06
